@@ -1,11 +1,14 @@
 package wire
 
 import (
+	"bytes"
 	"crypto/ed25519"
 	"crypto/sha256"
 	"encoding/binary"
 	"fmt"
+	"math/big"
 
+	"github.com/ontio/ontology-crypto/ec"
 	"github.com/ontio/ontology-crypto/keypair"
 	"github.com/polynetwork/poly/account"
 	"github.com/polynetwork/poly/common"
@@ -561,4 +564,109 @@ func blockDanger(b []byte) bool {
 		}
 	}
 	return false
+}
+
+// ---- off-curve public keys ----
+// ontology-crypto's DeserializePublicKey accepts the uncompressed encodings (0x04|X|Y, also
+// behind the typed 0x12|curve prefix) without checking that the point is on the curve, while
+// SerializePublicKey always writes the compressed form, whose decompression fails for such an X.
+// An object decoded with such a key can therefore not be encoded and decoded again.
+
+func offCurve(pub keypair.PublicKey) bool {
+	k, ok := pub.(*ec.PublicKey)
+	if !ok || k == nil || k.PublicKey == nil || k.Curve == nil || k.X == nil || k.Y == nil {
+		return false
+	}
+	return !k.Curve.IsOnCurve(k.X, k.Y)
+}
+
+func txOffCurve(tx *types.Transaction) bool {
+	if tx == nil {
+		return false
+	}
+	for _, s := range tx.Sigs {
+		for _, k := range s.PubKeys {
+			if offCurve(k) {
+				return true
+			}
+		}
+	}
+	return false
+}
+
+func hdrOffCurve(h *types.Header) bool {
+	if h == nil {
+		return false
+	}
+	for _, k := range h.Bookkeepers {
+		if offCurve(k) {
+			return true
+		}
+	}
+	return false
+}
+
+func blockOffCurve(b *types.Block) bool {
+	if b == nil {
+		return false
+	}
+	if hdrOffCurve(b.Header) {
+		return true
+	}
+	for _, tx := range b.Transactions {
+		if txOffCurve(tx) {
+			return true
+		}
+	}
+	return false
+}
+
+const offCurveKeyPrefix = "accepted-message-with-off-curve-public-key-cannot-be-reframed:"
+
+// uncompressedKey returns the 0x04|X|Y encoding of pool key i (P-256 keys only); with off=true Y
+// is changed so that the point leaves the curve; typed=true prepends the 0x12|curve label form.
+func uncompressedKey(i int, off, typed bool) []byte {
+	k := signerKey(i).pub.(*ec.PublicKey)
+	xi, y := new(big.Int).Set(k.X), new(big.Int).Set(k.Y)
+	if off { // move X to the nearest value that is the abscissa of no curve point at all
+		for {
+			xi.Add(xi, big.NewInt(1))
+			c := append([]byte{0x02}, make([]byte, 32-len(xi.Bytes()))...)
+			if _, err := keypair.DeserializePublicKey(append(c, xi.Bytes()...)); err != nil {
+				break
+			}
+		}
+	}
+	x := xi.Bytes()
+	b := []byte{0x04}
+	b = append(b, make([]byte, 32-len(x))...)
+	b = append(b, x...)
+	yb := y.Bytes()
+	b = append(b, make([]byte, 32-len(yb))...)
+	b = append(b, yb...)
+	if typed {
+		b = append([]byte{byte(keypair.PK_ECDSA), keypair.P256}, b...)
+	}
+	return b
+}
+
+// swapFirstKey replaces the first var-bytes encoded compressed P-256 pool key found in payload
+// by another encoding of (almost) the same key. ok=false if the payload carries no such key.
+func swapFirstKey(payload []byte, off, typed bool) (out []byte, ok bool) {
+	best, bi := -1, -1
+	for i := 0; i < 20; i++ {
+		pat := append([]byte{byte(len(signerKey(i).ser))}, signerKey(i).ser...)
+		if p := bytes.Index(payload, pat); p >= 0 && (best < 0 || p < best) {
+			best, bi = p, i
+		}
+	}
+	if best < 0 {
+		return nil, false
+	}
+	nk := uncompressedKey(bi, off, typed)
+	w := &refW{}
+	w.raw(payload[:best])
+	w.varbytes(nk)
+	w.raw(payload[best+1+len(signerKey(bi).ser):])
+	return w.b, true
 }
